@@ -48,6 +48,17 @@ def gen_facts(repo, crate='btdht', out=None, target_dir=None):
     if os.path.exists(out):
         os.remove(out)
     target = target_dir or os.path.join(BUILD, 'target')
+    import fcntl
+    lock = open(os.path.join(BUILD, '.factgen.lock'), 'w')
+    fcntl.flock(lock, fcntl.LOCK_EX)  # one extraction at a time: the fingerprint wipe below must not race
+    try:
+        return _gen_facts_locked(repo, crate, out, target)
+    finally:
+        fcntl.flock(lock, fcntl.LOCK_UN)
+        lock.close()
+
+
+def _gen_facts_locked(repo, crate, out, target):
     # cargo's freshness cache would skip the wrapper: forget the package's fingerprint
     fp = os.path.join(target, 'debug', '.fingerprint')
     if os.path.isdir(fp):
@@ -122,7 +133,6 @@ def analyse(prop, repo, facts_path=None, keep_facts=False):
             except OSError:
                 pass
     nfiles = verify_fresh(facts, repo) if own else len(facts.meta['files'])
-    lib.install_field_types(facts)
     ctx = lib.Ctx(facts)
     res = lib.Results(prop)
     mod = importlib.import_module('rules.%s' % prop.lower())
